@@ -7,6 +7,7 @@ let show_vehicle v = match v with
 let handle (toks : Stdlib.String.t list) : Stdlib.String.t =
   match toks with
   | ["vread"; h] -> show_res show_vehicle (vehicle_read (bytes_of_hex h))
+  | ["vcls"; h] -> (match vehicle_read (bytes_of_hex h) with Ok v -> Printf.sprintf "mod=%d builtin=%d" (if is_mod v then 1 else 0) (if is_builtin v then 1 else 0) | _ -> "E")
   | ["vspec"; h] -> show_res show_vehicle (spec_read (bytes_of_hex h))
   | ["vwrite"; "B"; i] -> show_res hex_of_bytes (vehicle_write (Builtin (n_of_int (int_of_string i))))
   | ["vwrite"; "M"; i] -> show_res hex_of_bytes (vehicle_write (Mod (n_of_int (int_of_string i))))
